@@ -132,7 +132,7 @@ func R34() Rule {
 		n := 0
 		// finishUpload together with the helpers / lock-section methods it is split into
 		scope := P.Scope(fn, func(f *ssa.Function) bool {
-			return core.PkgPathOf(f) != core.PkgGcsemu || f.Name() == "validateConds" || f.Name() == "fmtErrorfCode"
+			return core.PkgPathOf(f) != core.PkgGcsemu || core.FuncName(f) == "validateConds" || core.FuncName(f) == "fmtErrorfCode"
 		})
 		within := setOf(scope)
 		var failures []ssa.Instruction
@@ -410,7 +410,7 @@ func R37() Rule {
 						walk(x.X, d+1)
 						walk(x.Y, d+1)
 					case *ssa.Call:
-						if sc := x.Call.StaticCallee(); sc != nil && sc.Name() == "maxTimestamp" {
+						if sc := x.Call.StaticCallee(); sc != nil && core.FuncName(sc) == "maxTimestamp" {
 							for _, a := range x.Call.Args {
 								walk(a, d+1)
 							}
